@@ -402,3 +402,95 @@ Proof.
   - specialize (K13 n). destruct (of_read_dir (ow_fs w) f n). exact K13.
   - specialize (K14 n). destruct (of_readdirnames (ow_fs w) f n). exact K14.
 Qed.
+
+(* ---- handles stay valid, so the theorem applies along every history ------------------------------------------ *)
+Lemma handle_ok_mono h h' f : length h <= length h' -> handle_ok h f -> handle_ok h' f.
+Proof. unfold handle_ok. destruct (hd_node f); [lia|auto]. Qed.
+
+Lemma handles_mono h h' l : length h <= length h' -> Forall (handle_ok h) l -> Forall (handle_ok h') l.
+Proof. intros Hl H. eapply Forall_impl; [|exact H]. intros f. apply handle_ok_mono. exact Hl. Qed.
+
+Lemma set_nth_forall (A : Type) (P : A -> Prop) (l : list A) : forall i x, Forall P l -> P x -> Forall P (set_nth_ l i x).
+Proof.
+  induction l as [|y l IH]; intros [|i] x Hl Hx; cbn [set_nth_]; auto; inversion Hl; subst; constructor; auto.
+Qed.
+
+Lemma handle_node_kept s f :
+  (forall n, hd_node (fst (of_read s f n)) = hd_node f) /\ (forall b, hd_node (snd (fst (of_write s f b))) = hd_node f)
+  /\ (forall o wh, hd_node (fst (of_seek s f o wh)) = hd_node f)
+  /\ (forall n, hd_node (fst (of_read_dir s f n)) = hd_node f) /\ (forall n, hd_node (fst (of_readdirnames s f n)) = hd_node f).
+Proof.
+  repeat split; intros.
+  - unfold of_read, o_prologue. repeat match goal with |- context [match ?x with _ => _ end] => destruct x eqn:? end; cbn [fst snd hd_node o_set_at o_set_dir]; try reflexivity; try assumption; try congruence.
+  - unfold of_write, o_prologue. repeat match goal with |- context [match ?x with _ => _ end] => destruct x eqn:? end; cbn [fst snd hd_node o_set_at o_set_dir]; try reflexivity; try assumption; try congruence.
+  - unfold of_seek, o_prologue. repeat match goal with |- context [match ?x with _ => _ end] => destruct x eqn:? end; cbn [fst snd hd_node o_set_at o_set_dir]; try reflexivity; try assumption; try congruence.
+  - unfold of_read_dir, o_prologue, o_batch. repeat match goal with |- context [match ?x with _ => _ end] => destruct x eqn:? end; cbn [fst snd hd_node o_set_at o_set_dir]; try reflexivity; try assumption; try congruence.
+  - unfold of_readdirnames, o_prologue, o_batch. repeat match goal with |- context [match ?x with _ => _ end] => destruct x eqn:? end; cbn [fst snd hd_node o_set_at o_set_dir]; try reflexivity; try assumption; try congruence.
+Qed.
+
+Lemma handles_ok_step w c : handles_ok w -> handles_ok (fst (ostep w c)).
+Proof.
+  intros Hh. unfold handles_ok in *. unfold ostep, o_on_view, o_on_handle, olift.
+  pose proof (len_mono_ns (ow_fs w)) as (L1 & L2 & L3 & L4 & L5 & L6 & L7 & L8 & L9 & L10).
+  destruct c; try (destruct vi; [|exact Hh]);
+    try (destruct (nth_error (ow_handles w) hi) as [f|] eqn:Ef; [|exact Hh];
+         assert (Hf : handle_ok (o_heap (ow_fs w)) f) by (apply (proj1 (Forall_forall _ _) Hh); eapply nth_error_In; exact Ef);
+         pose proof (len_handle_calls (ow_fs w) f) as (M1 & M2 & M3 & M4 & M5 & M6);
+         pose proof (handle_node_kept (ow_fs w) f) as (N1 & N2 & N3 & N4 & N5));
+    cbn [fst ow_fs ow_handles ow_with_fs]; try exact Hh;
+    try (eapply handles_mono; [|exact Hh]; auto; fail).
+  - pose proof (len_open_file (ow_fs w) p flag perm) as Hl.
+    destruct (o_open_file (ow_fs w) p flag perm) as [s1 [r|f]] eqn:E; cbn [fst ow_fs ow_handles ow_with_fs] in *.
+    + eapply handles_mono; [exact Hl|exact Hh].
+    + apply Forall_app. split; [eapply handles_mono; [exact Hl|exact Hh]|].
+      constructor; [|constructor]. eapply open_file_handle_ok. exact E.
+  - unfold o_write_file. pose proof (len_open_file (ow_fs w) p (O_WRONLY + O_CREATE + O_TRUNC) perm) as Hl.
+    destruct (o_open_file (ow_fs w) p (O_WRONLY + O_CREATE + O_TRUNC) perm) as [s1 [r|f]]; cbn [fst] in *; [exact Hh|].
+    pose proof (proj1 (len_handle_calls s1 f) data) as Hl2.
+    destruct (of_write s1 f data) as [[s2 f2] r]. cbn [fst] in *.
+    assert (Hl3 : length (o_heap (ow_fs w)) <= length (o_heap s2)) by lia.
+    destruct r; cbn [fst]; eapply handles_mono; try exact Hh; exact Hl3.
+  - specialize (N1 n). destruct (of_read (ow_fs w) f n) as [f' r]. cbn [fst ow_fs ow_handles ow_with_handle] in *.
+    apply set_nth_forall; [exact Hh|]. unfold handle_ok in *. rewrite N1. exact Hf.
+  - specialize (N2 b). specialize (M1 b). destruct (of_write (ow_fs w) f b) as [[s1 f'] r].
+    cbn [fst snd ow_fs ow_handles ow_with_handle ow_with_fs] in *.
+    apply set_nth_forall; [eapply handles_mono; [|exact Hh]; lia|]. unfold handle_ok in *. rewrite N2, M1. exact Hf.
+  - eapply handles_mono; [|exact Hh]. rewrite M2. lia.
+  - specialize (N3 off whence). destruct (of_seek (ow_fs w) f off whence) as [f' r]. cbn [fst ow_fs ow_handles ow_with_handle] in *.
+    apply set_nth_forall; [exact Hh|]. unfold handle_ok in *. rewrite N3. exact Hf.
+  - eapply handles_mono; [|exact Hh]. rewrite M3. lia.
+  - eapply handles_mono; [|exact Hh]. rewrite M4. lia.
+  - eapply handles_mono; [|exact Hh]. rewrite M5. lia.
+  - eapply handles_mono; [|exact Hh]. rewrite M6. lia.
+  - unfold f_close. destruct (hd_node f) eqn:En; cbn [fst ow_fs ow_handles ow_with_handle].
+    + apply set_nth_forall; [exact Hh|]. unfold handle_ok. cbn [hd_node]. exact I.
+    + apply set_nth_forall; [exact Hh|exact Hf].
+  - specialize (N4 n). destruct (of_read_dir (ow_fs w) f n) as [f' r]. cbn [fst ow_fs ow_handles ow_with_handle] in *.
+    apply set_nth_forall; [exact Hh|]. unfold handle_ok in *. rewrite N4. exact Hf.
+  - specialize (N5 n). destruct (of_readdirnames (ow_fs w) f n) as [f' r]. cbn [fst ow_fs ow_handles ow_with_handle] in *.
+    apply set_nth_forall; [exact Hh|]. unfold handle_ok in *. rewrite N5. exact Hf.
+Qed.
+
+(* histories: every call in range; RemoveAll as far as the invariant is proved *)
+Fixpoint run_ok (w : oworld) (cs : list call) : Prop :=
+  match cs with
+  | [] => True
+  | c :: r => ra_ok (ow_fs w) c /\ call_in_range w c /\ run_ok (fst (ostep w c)) r
+  end.
+
+Theorem C07_orefa_run_partial : forall um cs,
+  run_ok (o_init_world_linux um) cs -> Forall res_ok (snd (orun (o_init_world_linux um) cs)).
+Proof.
+  intros um cs.
+  assert (H1 : orefa_inv (ow_fs (o_init_world_linux um))) by apply C05_orefa_init.
+  assert (H2 : handles_ok (o_init_world_linux um)) by constructor.
+  revert H1 H2. generalize (o_init_world_linux um). induction cs as [|c r IH]; intros w Hinv Hh Hrun; cbn [orun].
+  - constructor.
+  - destruct Hrun as (Hra & Hrng & Hrest).
+    pose proof (C07_orefa_total w c Hinv Hh Hrng) as Hres.
+    pose proof (C05_orefa_step_partial w c Hinv Hra) as Hinv'.
+    pose proof (handles_ok_step w c Hh) as Hh'.
+    destruct (ostep w c) as [w1 r1]. cbn [fst snd] in *.
+    specialize (IH w1 Hinv' Hh' Hrest). destruct (orun w1 r) as [w2 rs]. cbn [snd] in *.
+    constructor; assumption.
+Qed.
